@@ -1,5 +1,6 @@
 """Shared machinery of ./check: builds, axiom audit, correspondence, shrinking, evidence."""
 import os, re, sys, json, time, subprocess, fcntl, tempfile, hashlib, concurrent.futures, shutil
+import native as NATIVE
 
 ALLOWED_AXIOMS = {"propext", "Classical.choice", "Quot.sound"}
 BV_AX = re.compile(r"\._native\.bv_decide\.ax_\d+(_\d+)*$")
@@ -103,6 +104,7 @@ class Run:
         self.harness = os.path.join(root, "harness")
         self.axh = os.path.join(self.harness, "target", "release", "axh")
         self.driver = os.path.join(self.lean, ".lake", "build", "bin", "axdriver")
+        self.nx = os.path.join(root, "native", "nx")
         self.t0 = time.time()
         self.notes = []
         self.env = dict(os.environ, CARGO_NET_OFFLINE="true")
@@ -240,6 +242,19 @@ class Run:
     def run_model(self, cmds, timeout=600):
         return self.run_side([self.driver], cmds, timeout, crash_word="model-crash")
 
+    def build_native(self):
+        src = os.path.join(self.root, "native", "nx.c")
+        if not os.path.exists(self.nx) or os.path.getmtime(self.nx) < os.path.getmtime(src):
+            with Lock(os.path.join(self.root, ".cc.lock")):
+                p = subprocess.run(["cc", "-O1", "-o", self.nx, src], capture_output=True, text=True)
+                if p.returncode != 0:
+                    log(p.stderr[-2000:])
+                    return False
+        return True
+
+    def run_cpu(self, cmds, timeout=600):
+        return self.run_side([self.nx], cmds, timeout, crash_word="skip")
+
     def run_both(self, cmds, timeout=300):
         """Implementation first; a trailing ' @token' of an implementation output line is feedback for the model
         (values only the running implementation knows, e.g. the descriptor numbers its RNG handed out): it is
@@ -342,13 +357,27 @@ class Run:
             print(f"replay {path}: no commands (theorem/correspondence-level report): {body.get('note')}")
             return 1
         d, impl, model = self.case_fails(cmds)
+        cpu = None
+        if self.cfg.get("native") and self.build_native():
+            cpu = self.run_cpu(cmds, timeout=60)
         for i, c in enumerate(cmds):
             a = impl[i] if i < len(impl) else "<none>"
             b = model[i] if i < len(model) else "<none>"
             mark = "  " if self.line_equal(c, a, b) else "!!"
-            print(f"{mark} {c}\n     impl : {a[:300]}\n     model: {b[:300]}")
+            print(f"{mark} {c[:300]}\n     impl : {a[:300]}\n     model: {b[:300]}" + (f"\n     cpu  : {cpu[i][:300]}" if cpu and i < len(cpu) else ""))
+        cpu_viol = False
+        if cpu:
+            cv = NATIVE.CaseView(cmds, impl, model, cpu)
+            j = NATIVE.judge(cv, self.cfg["native"]["aspects"])
+            if j:
+                if self.cfg["native"].get("stack_shift") and NATIVE.stack_shift_explains(cv):
+                    j = [(f"cpu:{cv.kv['code']}:slot-offset=+opsize", j[0][1])]
+                for a_, d_ in j:
+                    print("cpu-mismatch:", a_, d_)
+                kf = self.known_findings()
+                cpu_viol = any(self.match_known(kf, a_) is None for a_, _ in j)
         extra = self.cfg.get("oracle")
-        viol = d is not None
+        viol = d is not None or cpu_viol
         if extra:
             msgs = extra(cmds, impl)
             for m in msgs:
@@ -467,6 +496,36 @@ class Run:
             c0 = split_cases(results[0][0])[0]
             samples.append({"commands": c0[:12], "impl": results[0][1][:len(c0)][:12], "model": results[0][2][:len(c0)][:12]})
 
+        # native CPU oracle (C01-C06)
+        cpu_mismatch = []     # (case, impl, model, cpu, [(aspect, detail)])
+        cpu_compared = cpu_skipped = 0
+        ncfg = cfg.get("native")
+        if ncfg:
+            if not self.build_native():
+                print("CHECK-ERROR native oracle does not build")
+                return 2
+
+            def run_cpu_batch(r):
+                return self.run_cpu(r[0], timeout=cfg.get("timeout", 600))
+
+            with concurrent.futures.ThreadPoolExecutor(max_workers=min(NCPU, max(1, len(results)))) as ex:
+                cpus = list(ex.map(run_cpu_batch, results))
+            for (cmds, impl, model), cpu in zip(results, cpus):
+                pos = 0
+                for case in split_cases(cmds):
+                    n = len(case)
+                    cv = NATIVE.CaseView(case, impl[pos:pos + n], model[pos:pos + n], cpu[pos:pos + n])
+                    pos += n
+                    j = NATIVE.judge(cv, ncfg["aspects"])
+                    if j is None:
+                        cpu_skipped += 1
+                        continue
+                    cpu_compared += 1
+                    if j:
+                        if ncfg.get("stack_shift") and NATIVE.stack_shift_explains(cv):
+                            j = [(f"cpu:{cv.kv['code']}:slot-offset=+opsize", j[0][1])]
+                        cpu_mismatch.append((case, cv.impl, cv.model, cv.cpu, j))
+
         bad_ops = sum(v for k, v in hist.items() if k.endswith(":bad-op"))
         if bad_ops:
             print(f"CHECK-ERROR {bad_ops} protocol lines were not understood by the implementation side")
@@ -487,6 +546,19 @@ class Run:
             reported.add(key)
             small = case
             path = self.write_replay("oracle", small, ci, cm, None, {"oracle_messages": msgs})
+            violations.append(f"VIOLATION property={pid} replay={path}")
+        for case, ci, cm, cc, j in cpu_mismatch:
+            key = j[0][0]
+            ent = self.match_known(kf, key)
+            if ent is not None:
+                known_hit[ent["id"]] = ent
+                continue
+            if key in reported or len(violations) >= 5:
+                continue
+            reported.add(key)
+            path = self.write_replay("impl-vs-cpu", case, ci, cm, None, {"cpu": cc, "aspect": key,
+                                     "mismatches": [f"{a}: {d}" for a, d in j],
+                                     "note": "the emulator's result differs from what this machine's CPU produced for the same bytes and state"})
             violations.append(f"VIOLATION property={pid} replay={path}")
         for case, ci, cm, d in disagreements:
             info = classify(case, ci, cm, d) if classify else {"aspect": fingerprint(case[d], ci[d] if d < len(ci) else "")}
@@ -517,7 +589,8 @@ class Run:
             print(f"KNOWN-FINDING: property={pid} {ent['what']}")
         for v in violations:
             print(v)
-        extra = {"corpus_cases": corpus_cases, "commands": n_cmds, "outcome_histogram": dict(sorted(hist.items())),
+        extra = {"cpu_cases_compared": cpu_compared, "cpu_cases_not_comparable": cpu_skipped, "cpu_mismatches": len(cpu_mismatch),
+                 "corpus_cases": corpus_cases, "commands": n_cmds, "outcome_histogram": dict(sorted(hist.items())),
                  "model_disagreements": len(disagreements), "oracle_failures": len(oracle_fail),
                  "known_findings_hit": sorted(known_hit.keys()), "proof_broken": proof_broken}
         self.write_evidence(obligations, discharged, audit, n_cases, len(fps), samples, extra, len(violations), lc)
